@@ -181,7 +181,7 @@ func init() {
 		}
 		s := a[0].(Struct)
 		zone := in.zoneID(s[2])
-		return OStr{in.ctx.App("time_format:"+layout, smt.SeqSort, in.term(s[0]), in.term(s[1]), in.ctx.BVConst(uint64(zone), 8))}, true
+		return in.nonEmptyApp("time_format:"+layout, in.term(s[0]), in.term(s[1]), in.ctx.BVConst(uint64(zone), 8)), true
 	}
 	parse := func(in *Interp, layoutV, textV Value) Value {
 		layout, ok := layoutV.(string)
@@ -314,5 +314,80 @@ func init() {
 		}
 		in.inputs = append(in.inputs, iv)
 		return mkXStr(b), true
+	}
+}
+
+// Text codecs on opaque strings, as uninterpreted functions with their
+// round-trip laws (each law is validated on bounded exploded strings by a
+// C16 harness running the real strconv code):
+//   Unquote(fmt_q(s)) = s          ParseInt(fmt_itoa10(x)) = x
+func init() {
+	intrinsics["strconv.Unquote"] = func(in *Interp, fr *frame, a []Value) (Value, bool) {
+		o, ok := a[0].(OStr)
+		if !ok {
+			return nil, false
+		}
+		if o.T.Op == smt.OpApp && o.T.Name == "fmt_q" {
+			return Tuple{fromTerm(o.T.Args[0]), Iface{}}, true
+		}
+		c := in.ctx
+		if !in.decide(c.App("unquote_ok", smt.BoolSort, o.T)) {
+			return Tuple{"", in.newError("invalid syntax")}, true
+		}
+		return Tuple{OStr{c.App("unquote", smt.SeqSort, o.T)}, Iface{}}, true
+	}
+	wideSym := func(in *Interp, v Value) (*smt.Term, bool) {
+		si, ok := v.(SymInt)
+		if !ok {
+			return nil, false
+		}
+		if d, ok := in.pcDom[si.T]; ok && d.hi-d.lo >= 0 && d.hi-d.lo <= 100000 {
+			return nil, false
+		}
+		return si.T, true
+	}
+	intrinsics["strconv.FormatInt"] = func(in *Interp, fr *frame, a []Value) (Value, bool) {
+		t, ok := wideSym(in, a[0])
+		if !ok {
+			return nil, false
+		}
+		base, okb := a[1].(Int)
+		if !okb {
+			return nil, false
+		}
+		return in.nonEmptyApp(fmt.Sprintf("fmt_itoa%d", base.V), t), true
+	}
+	intrinsics["strconv.Itoa"] = func(in *Interp, fr *frame, a []Value) (Value, bool) {
+		t, ok := wideSym(in, a[0])
+		if !ok {
+			return nil, false
+		}
+		return in.nonEmptyApp("fmt_itoa10", t), true
+	}
+	intrinsics["strconv.ParseInt"] = func(in *Interp, fr *frame, a []Value) (Value, bool) {
+		o, ok := a[0].(OStr)
+		if !ok {
+			return nil, false
+		}
+		base, okb := a[1].(Int)
+		bits, okc := a[2].(Int)
+		if !okb || !okc {
+			return nil, false
+		}
+		if o.T.Op == smt.OpApp && o.T.Name == fmt.Sprintf("fmt_itoa%d", base.V) && (bits.V == 64 || bits.V == 0) {
+			return Tuple{fromTerm(o.T.Args[0]), Iface{}}, true
+		}
+		c := in.ctx
+		if !in.decide(c.App("parseint_ok", smt.BoolSort, o.T)) {
+			return Tuple{mkInt(0, 64), in.newError("invalid syntax")}, true
+		}
+		return Tuple{fromTerm(c.App("parseint", smt.BV(64), o.T)), Iface{}}, true
+	}
+}
+
+func init() {
+	// Text is Str for the symbolic run (the native side sanitises)
+	intrinsics[vrtPkg+".Text"] = func(in *Interp, fr *frame, a []Value) (Value, bool) {
+		return intrinsics[vrtPkg+".Str"](in, fr, a)
 	}
 }
